@@ -151,6 +151,7 @@ def run_job(args):
         E = eng.Engine(obl_timeout_ms=cfg.get("obl_timeout_ms", 30000),
                        max_paths=cfg.get("max_paths"), seed=seed,
                        int_bound=cfg.get("int_bound", 8))
+        E.deadline = time.time() + cfg.get("job_timeout_s", 480 if tier == "quick" else 3600)
         E.slow_budget_s = cfg.get("slow_budget_s", 3600.0 if cfg.get("obl_timeout_ms", 0) >= 60000 else 600.0)
         E.known = [k for k in load_known().get("findings", [])
                    if k["property"] == pid and re.search(k.get("config", ""), cfg["name"])]
